@@ -33,10 +33,73 @@ def fam_general(rng, tier):
     return (gen.fam_fixed(rng, n(tier, 60, 400)) + gen.fam_stream(rng, n(tier, 150, 1500)) + gen.fam_garbage(rng, n(tier, 80, 600)))
 
 
+def fam_fixed_all(rng, tier):
+    return gen.fam_fixed(rng, n(tier, 120, 1200), max_recs=n(tier, 40, 200)) + gen.fam_fixed_protocols(rng) + \
+        gen.fam_stream(rng, n(tier, 40, 300), versions=(5, 7))
+
+
+def fam_v9(rng, tier):
+    return gen.fam_stream(rng, n(tier, 300, 3000), versions=(9,), calls=(1, 5)) + gen.fam_redefine(rng, n(tier, 40, 300))
+
+
+def fam_ipfix(rng, tier):
+    return gen.fam_stream(rng, n(tier, 300, 3000), versions=(10,), calls=(1, 5)) + gen.fam_redefine(rng, n(tier, 40, 300))
+
+
+def fam_cache(rng, tier):
+    return gen.fam_isolation(rng, n(tier, 60, 500)) + gen.fam_redefine(rng, n(tier, 80, 600)) + \
+        gen.fam_stream(rng, n(tier, 100, 800), simple_ipfix=True) + gen.fam_chain(rng, n(tier, 30, 200))
+
+
+def fam_c07(rng, tier):
+    return gen.fam_unknown_template(rng, n(tier, 150, 1500))
+
+
+def fam_c11(rng, tier):
+    return gen.fam_chain(rng, n(tier, 150, 600)) + (gen.fam_chain(rng, 60, max_pkts=7, all_partitions=True) if tier == "thorough" else [])
+
+
+def fam_c12(rng, tier):
+    return gen.fam_filter(rng, n(tier, 250, 2500))
+
+
+def fam_c14(rng, tier):
+    if tier == "thorough":
+        return gen.fam_trunc(rng, 150) + gen.fam_trunc(rng, 40, fracs=list(range(0, 1001, 25)))
+    return gen.fam_trunc(rng, 300)
+
+
+def fam_c13(rng, tier):
+    return gen.fam_common(rng, n(tier, 150, 1500)) + gen.fam_fixed(rng, n(tier, 40, 300))
+
+
+STREAM_RULE = "conformant multi-call histories from the RFC-level generator (templates drawn from the library's type tables plus unknown types, supported widths, enterprise / variable-length / zero-length fields, 1-3 template records per set, options templates, paddings), encoded by the Lean specification writer Spec.enc"
+MUT_RULE = ", plus byte mutations of the encoded histories (truncation, length-word edits, bit flips, splices, extensions)"
+
 PROPS = {
-    "C02": {
-        "oracle": "C02", "view": ["outcome", "pkts"], "classes": [],
-        "families": fam_general, "mutate_per": {"quick": 2, "thorough": 4},
-        "rule": "conformant V5/V7/V9/IPFIX multi-call histories from the RFC-level generator, random garbage with plausible version words, and byte mutations (truncation, length-word edits, bit flips, splices) of the encoded histories",
-    },
+    "C01": {"oracle": "C01", "view": ["outcome"], "families": lambda rng, tier: gen.fam_extremal(rng, tier) + fam_general(rng, tier) + gen.fam_redefine(rng, n(tier, 40, 300)),
+            "mutate_per": {"quick": 3, "thorough": 6}, "rule": STREAM_RULE + MUT_RULE},
+    "C02": {"oracle": "C02", "view": ["outcome", "pkts"], "families": fam_general, "mutate_per": {"quick": 2, "thorough": 4},
+            "rule": STREAM_RULE + ", random garbage with plausible version words" + MUT_RULE},
+    "C03": {"oracle": "C03", "view": ["outcome", "pkts"], "families": fam_fixed_all, "mutate_per": {"quick": 2, "thorough": 4},
+            "also": ["C03spec"],
+            "rule": "V5/V7 packets with all counts incl. 0, boundary field values, every protocol number 0..255, every truncation/mutation class; oracle = Cisco offsets + IANA names"},
+    "C04": {"oracle": "C04", "view": ["outcome", "pkts", "state"], "families": fam_v9, "rule": STREAM_RULE + " (V9 only)"},
+    "C05": {"oracle": "C05", "view": ["outcome", "pkts", "state"], "families": fam_ipfix, "rule": STREAM_RULE + " (IPFIX only)"},
+    "C06": {"oracle": "C06", "view": ["outcome", "pkts", "state"], "families": fam_cache,
+            "rule": "interleaved histories on several parser instances with colliding template ids, redefinitions, V5/V7 and disallowed-version frames, chained vs split delivery"},
+    "C07": {"oracle": "C07", "view": ["outcome", "pkts", "state"], "families": fam_c07,
+            "rule": "data sets for a template id unknown to this parser/protocol (defined for the other protocol on this parser and for the same protocol on another parser), alone or after other packets, then followed by the template and the same data"},
+    "C08": {"oracle": "C08", "view": ["outcome", "pkts", "exports"], "families": fam_fixed_all, "mutate_per": {"quick": 1, "thorough": 2},
+            "rule": "V5/V7 packets, all counts, boundary values; re-export compared with the bytes each packet occupied"},
+    "C09": {"oracle": "C09", "view": ["outcome", "pkts", "exports"], "families": fam_v9, "rule": STREAM_RULE + " (V9 only); re-export compared with the bytes each packet occupied"},
+    "C10": {"oracle": "C10", "view": ["outcome", "pkts", "exports"], "families": fam_ipfix, "rule": STREAM_RULE + " (IPFIX only); re-export compared with the message bytes"},
+    "C11": {"oracle": "C11", "view": ["outcome", "pkts", "state"], "families": fam_c11,
+            "rule": "sequences of 2-6 self-delimiting packets of all four versions (early packets defining templates later ones need): joined, one per call, random partitions (thorough: all 2^(n-1) partitions for n<=7)"},
+    "C12": {"oracle": "C12", "view": ["outcome", "pkts", "state"], "families": fam_c12,
+            "rule": "random subsets S of {5,7,9,10} plus extra numbers against an every-version-allowed parser on the same buffer/history, and against an every-version-allowed parser fed the allowed prefix only"},
+    "C13": {"oracle": "C13", "view": ["outcome", "pkts", "common"], "families": fam_c13,
+            "rule": "V5/V7 packets and V9/IPFIX streams whose templates are built from the projected fields (any subset/order, IPv4/IPv6), several records and sets; flat helper on a twin parser"},
+    "C14": {"oracle": "C14", "view": ["outcome", "pkts", "state"], "families": fam_c14,
+            "rule": "valid packets of every version cut strictly inside (V9: not on a flowset boundary), alone or after other packets, after a template-defining history; twin parser fed the preceding packets only"},
 }
